@@ -254,3 +254,6 @@ PLANS["C19"].proofs += [("contracts.closeness", n) for n in _CL.ALL]
 
 from contracts import parsing as _PA   # noqa: E402
 PLANS["C20"].proofs += [("contracts.parsing", n) for n in _PA.ALL]
+
+for _pid in ("C11", "C13"):      # the difference unit belongs to the operands' registry
+    PLANS[_pid].proofs += [("contracts.unit_ops", "DifferenceUnits")]
